@@ -62,6 +62,12 @@ stmt:
             }
     |   '(' items ')'
             {
+                // bad (nil-deref): only one branch gives the pointer a value
+                var spare *ast.Leaf
+                if $2 == nil {
+                    spare = &ast.Leaf{}
+                }
+                _ = spare.Value
                 $$ = &ast.List{
                     Position: yylex.(*Parser).builder.NewTokensPosition($1, $3),
                     OpenTkn: $1,
